@@ -526,16 +526,6 @@ class Frame:
                 pos = self.position(key, lv)
                 return key, lv, ('tuple', (T.add(pos, start) if start != C(0) else pos, elem))
             if f == 'zip':
-                parts, guards = [], []
-                outer = self._iter_guard
-
-                def part(fn_, arg):
-                    self._iter_guard = TRUE
-                    p_ = fn_(arg)
-                    parts.append(p_)
-                    guards.append((p_[1], self._iter_guard))
-                # elements are paired by position: a skipping (guarded) normal form is only sound when every operand skips the same positions
-                saved_plain = self._plain_iter
                 operands = []                                     # (binder, argument): evaluated once, bound twice if the guards disagree
                 for x in it_node.args:
                     if isinstance(x, ast.Starred):
@@ -548,26 +538,7 @@ class Frame:
                         operands.append((self.iter_binding, x))
                     else:
                         operands.append((lambda t: self.iter_of_term(t, depth), self.ex(x)))
-                for fn_, arg in operands:
-                    part(fn_, arg)
-                if len({T.subst(gd, lambda y, l=l: ('lv', ('position',), depth) if y == l else None) for (l, gd) in guards}) > 1:
-                    parts, guards = [], []
-                    self._plain_iter = True
-                    for fn_, arg in operands:
-                        if fn_ != self.iter_binding:
-                            part(fn_, arg)
-                        else:
-                            part(fn_, arg)
-                self._plain_iter = saved_plain
-                keys = T.sort_terms({p[0] for p in parts})
-                # the positions visited are those common to all operands; which operand is named first does not matter
-                key = keys[0] if len(keys) == 1 else ('zip', tuple(keys))
-                lv = ('lv', key, depth)
-                elems = []
-                for (k, l, e) in parts:
-                    elems.append(T.subst(e, lambda x, l=l: lv if x == l else None))
-                self._iter_guard = T.and_([outer] + [T.subst(gd, lambda x, l=l: lv if x == l else None) for l, gd in guards])
-                return key, lv, ('tuple', tuple(elems))
+                return self._zip_bind(operands, depth)
             if f == 'product':
                 parts = [self.iter_binding(x) for x in it_node.args]
                 key = ('product', tuple(p[0] for p in parts))
@@ -579,9 +550,43 @@ class Frame:
         it = self.ex(it_node)
         return self.iter_of_term(it, depth)
 
+    def _zip_bind(self, operands, depth):
+        """binding of zip(...) from (binder, argument) pairs: one loop variable over the positions common to all operands"""
+        parts, guards = [], []
+        outer = self._iter_guard
+
+        def part(fn_, arg):
+            self._iter_guard = TRUE
+            p_ = fn_(arg)
+            parts.append(p_)
+            guards.append((p_[1], self._iter_guard))
+        # elements are paired by position: a skipping (guarded) normal form is only sound when every operand skips the same positions
+        saved_plain = self._plain_iter
+        for fn_, arg in operands:
+            part(fn_, arg)
+        if len({T.subst(gd, lambda y, l=l: ('lv', ('position',), depth) if y == l else None) for (l, gd) in guards}) > 1:
+            parts, guards = [], []
+            self._plain_iter = True
+            for fn_, arg in operands:
+                part(fn_, arg)
+        self._plain_iter = saved_plain
+        keys = T.sort_terms({p[0] for p in parts})
+        # the positions visited are those common to all operands; which operand is named first does not matter
+        key = keys[0] if len(keys) == 1 else ('zip', tuple(keys))
+        lv = ('lv', key, depth)
+        elems = []
+        for (k, l, e) in parts:
+            elems.append(T.subst(e, lambda x, l=l: lv if x == l else None))
+        self._iter_guard = T.and_([outer] + [T.subst(gd, lambda x, l=l: lv if x == l else None) for l, gd in guards])
+        return key, lv, ('tuple', tuple(elems))
+
     def iter_of_term(self, it, depth):
         if it[0] == 'nd':
             it = it[1]
+        zt = it[2][0] if it[0] == 'call' and it[1] == 'list' and len(it[2]) == 1 and not it[3] else it
+        if zt[0] == 'call' and zt[1] == 'zip' and zt[2] and not zt[3] and not any(a[0] in ('starargs', 'starred') for a in zt[2]):
+            # a zip object (or the list made from it) bound to a name and iterated later: the same pairs as zip(...) written in the loop header
+            return self._zip_bind([(lambda t: self.iter_of_term(t, depth), a) for a in zt[2]], depth)
         if it[0] == 'records':
             tb = it[1]
             sel = {v[2][1] for c, v in tb[1] if v[0] == 'idx' and isinstance(v[2], tuple) and v[2] and v[2][0] == 'rowsel'} if tb[0] == 'table' and tb[1] else set()
@@ -612,6 +617,13 @@ class Frame:
             key = ('keysof', it[2])
             lv = ('lv', key, depth)
             return key, lv, ('keyat', it[2], lv)
+        if not self._plain_iter and it[0] == 'idx' and it[2][0] == 'rowsel' and (T._masklike(it[2][1]) or T.is_boolarr(it[2][1])):
+            # iterating a column of df[mask] == iterating the column of df, skipping the rows whose flag is not set
+            m = it[2][1]
+            key = ('range', C(0), T.length(m), C(1))
+            lv = ('lv', key, depth)
+            self._iter_guard = T.and_([self._iter_guard, T.index(m, lv)])
+            return key, lv, T.index(it[1], lv)
         if not self._plain_iter and it[0] == 'idx' and it[2][0] in ('cmp0', 'band', 'bor', 'binv'):
             # iterating the selected elements X[mask] == iterating all positions of X under the guard mask[i]
             key = ('range', C(0), T.length(it[1]), C(1))
@@ -1263,6 +1275,8 @@ class Frame:
         return self.getitem(b, k, n)
 
     def getitem(self, b, k, n=None):
+        if k[0] == 'sl' and len(k) == 4 and b[0] not in ('indexer', 'table', 'records', 'row', 'dict'):
+            return T.slice_(b, k[1] if k[1] != C(0) else NONE, k[2], k[3])          # subscript by a slice object
         if b[0] == 'records' and (T.is_int(k) or k[0] == 'lv'):
             return ('row', b[1], k)                     # df.to_dict('records')[i] is row i
         if b[0] == 'row':
@@ -1414,7 +1428,16 @@ class Frame:
                 return None if inner is None else [('tuple', (C(i), e)) for i, e in enumerate(inner)]
             if f == 'zip':
                 cyc = [isinstance(a, ast.Call) and ast.unparse(a.func) in ('cycle', 'itertools.cycle') and len(a.args) == 1 for a in it_node.args]
-                parts = [self.literal_items(a.args[0] if c else a) for a, c in zip(it_node.args, cyc)]
+                # a name bound to a (not yet advanced) itertools.cycle(<literal>) object
+                named = [isinstance(a, ast.Name) and self.env.get(a.id, ('?',))[0] == 'cycleiter' and a.id not in self.mutated for a in it_node.args]
+                parts = []
+                for a, c, nm in zip(it_node.args, cyc, named):
+                    if nm:
+                        src = T.strip_nd(self.env[a.id][1])
+                        parts.append(list(src[1]) if src[0] in ('list', 'tuple') else None)
+                    else:
+                        parts.append(self.literal_items(a.args[0] if c else a))
+                cyc = [c or nm for c, nm in zip(cyc, named)]
                 if any(p is None for p in parts) or all(cyc):
                     return None
                 n_ = min(len(p) for p, c in zip(parts, cyc) if not c)
